@@ -58,7 +58,26 @@ def golden_raisers():
     return table, bad
 
 
+def sites_always_throw():
+    """Every site must throw each time it is evaluated (in the reference): [] when fine."""
+    P = progs
+    bad = []
+    for name, site in c07gen.SITES.items():
+        if site["e"] is None:
+            continue
+        body = c07gen.prelude() + site["setup"] + [P.var("q", "qo2", ("qo", P.obj()), ("n", P.num(0)))]
+        for k in range(2):
+            body.append(P.try_([P.expr(site["e"]), P.log("no-throw", P.num(k))], ("e", [P.expr(P.upd("++", P.id_("n")))]), None))
+        body.append(P.expr(P.id_("n")))
+        r = refjs_c07.run({"body": body})
+        if "unmodelled" in r or r["result"] != ["value", ["n", "2.0"]]:
+            bad.append([name, r.get("result"), r.get("unmodelled")])
+    return bad
+
+
 def main():
+    not_throwing = sites_always_throw()
+    print("sites that do not throw at every evaluation:", not_throwing)
     n_random = int(sys.argv[1]) if len(sys.argv) > 1 else 6000
     seed = int(sys.argv[2]) if len(sys.argv) > 2 else 1
     t0 = time.time()
@@ -105,6 +124,8 @@ def main():
         "seed": seed,
         "text_sites": len(table),
         "text_sites_disagreeing": bad,
+        "sites": len(c07gen.SITES),
+        "sites_not_throwing_at_every_evaluation": not_throwing,
         "cases": sum(s["cases"] for s in by_sub.values()),
         "disagreements": sum(s["disagree"] for s in by_sub.values()),
         "unmodelled_or_budget": sum(s["unmodelled"] for s in by_sub.values()),
